@@ -402,6 +402,28 @@ def _single_expr_helper(h):
     if len(body) == 1 and isinstance(body[0], ast.Return) and body[0].value is not None and (not h.decorator_list or [norm_(d) for d in h.decorator_list] == ["staticmethod"]) \
             and not _has(h, (ast.Yield, ast.YieldFrom, ast.Lambda, ast.NamedExpr, ast.ListComp, ast.SetComp, ast.DictComp, ast.GeneratorExp)):
         return body[0].value
+    # if C: return A  [elif ..]  return B      is the expression   A if C else B
+    if (not h.decorator_list or [norm_(d) for d in h.decorator_list] == ["staticmethod"]) \
+            and not _has(h, (ast.Yield, ast.YieldFrom, ast.Lambda, ast.NamedExpr)):
+        def as_expr(stmts):
+            if len(stmts) == 1 and isinstance(stmts[0], ast.Return) and stmts[0].value is not None:
+                return stmts[0].value
+            if len(stmts) >= 2 and isinstance(stmts[0], ast.If) and len(stmts[0].body) == 1 and isinstance(stmts[0].body[0], ast.Return) and stmts[0].body[0].value is not None:
+                rest = as_expr(stmts[0].orelse) if stmts[0].orelse else as_expr(stmts[1:])
+                if stmts[0].orelse and len(stmts) > 1:
+                    return None
+                if rest is not None:
+                    return ast.copy_location(ast.IfExp(test=stmts[0].test, body=stmts[0].body[0].value, orelse=rest), stmts[0])
+            if len(stmts) == 1 and isinstance(stmts[0], ast.If) and stmts[0].orelse and len(stmts[0].body) == 1 and isinstance(stmts[0].body[0], ast.Return) \
+                    and stmts[0].body[0].value is not None:
+                rest = as_expr(stmts[0].orelse)
+                if rest is not None:
+                    return ast.copy_location(ast.IfExp(test=stmts[0].test, body=stmts[0].body[0].value, orelse=rest), stmts[0])
+            return None
+        if not _has(h, (ast.ListComp, ast.SetComp, ast.DictComp)) or True:
+            e = as_expr(body)
+            if e is not None and len(body) > 1 or (e is not None and isinstance(body[0], ast.If)):
+                return e
     return None
 
 
@@ -507,8 +529,14 @@ class _ExprInline(ast.NodeTransformer):
                 uses[n.id] = uses.get(n.id, 0) + 1
         if any(not _pure_arg(v) and uses.get(p, 0) > 1 for p, v in bound.items()):
             return c
-        if any(isinstance(n, ast.Name) and isinstance(n.ctx, ast.Store) for n in ast.walk(expr)):
-            return c
+        stores = {n.id for n in ast.walk(expr) if isinstance(n, ast.Name) and isinstance(n.ctx, ast.Store)}
+        if stores:
+            # only the variables of comprehensions inside the expression (they are local to it), and none of them may
+            # capture a name that an argument mentions
+            comp_targets = {n.id for comp in ast.walk(expr) if isinstance(comp, ast.comprehension) for n in ast.walk(comp.target) if isinstance(n, ast.Name)}
+            arg_names = {n.id for v in bound.values() for n in ast.walk(v) if isinstance(n, ast.Name)}
+            if stores - comp_targets or comp_targets & arg_names:
+                return c
 
         class Sub(ast.NodeTransformer):
             def visit_Name(self_, n):
